@@ -59,13 +59,15 @@ def gen_cases(seed, tier):
         # always end by restoring every location, so that the final dump must equal the initial one
         for k in range(npacks):
             ops.append((str(k), "orig"))
-        cases.append(dict(id="m%d" % i, pkg=pkg, comp=comp, n=nent, extra=extra, seed=rng.randint(1, 10**6), ops=ops))
+        # every fourth manifest is one another producer may have written: non-zero packGroup in every pack info (a
+        # checked byte the library's creator leaves at 0), digest and CRCs recomputed by the harness
+        cases.append(dict(id="m%d" % i, pkg=pkg, comp=comp, n=nent, extra=extra, seed=rng.randint(1, 10**6), ops=ops, groups=(i % 4 == 2)))
     return cases
 
 
 def case_text(c, seed):
-    s = "seed %d\ncase %s manifest pkg=%s comp=%s n=%d extra=%d seed=%d\n" % (
-        seed, c["id"], c["pkg"], c["comp"], c["n"], c["extra"], c["seed"])
+    s = "seed %d\ncase %s manifest pkg=%s comp=%s n=%d extra=%d seed=%d%s\n" % (
+        seed, c["id"], c["pkg"], c["comp"], c["n"], c["extra"], c["seed"], " groups=1" if c.get("groups") else "")
     for k, loc in c["ops"]:
         s += "setloc %s %s\n" % (k, loc)
     return s + "end\n"
@@ -74,10 +76,10 @@ def case_text(c, seed):
 def parse_replay(path):
     cases = []
     txt = open(path).read()
-    for m in re.finditer(r"case (\S+) manifest pkg=(\S+) comp=(\S+) n=(\d+) extra=(\d+) seed=(\d+)\n((?:setloc .*\n)*)end", txt):
-        ops = [tuple(l.split()[1:3]) for l in m.group(7).splitlines() if l.startswith("setloc")]
+    for m in re.finditer(r"case (\S+) manifest pkg=(\S+) comp=(\S+) n=(\d+) extra=(\d+) seed=(\d+)( groups=1)?\n((?:setloc .*\n)*)end", txt):
+        ops = [tuple(l.split()[1:3]) for l in m.group(8).splitlines() if l.startswith("setloc")]
         cases.append(dict(id=m.group(1), pkg=m.group(2), comp=m.group(3), n=int(m.group(4)), extra=int(m.group(5)),
-                          seed=int(m.group(6)), ops=ops))
+                          seed=int(m.group(6)), groups=bool(m.group(7)), ops=ops))
     return cases
 
 
